@@ -1,4 +1,5 @@
 """C16 — everything the converter skips is reported once; clean documents report nothing."""
+import common
 import apicheck as A
 
 PROFILE = dict(p_dangling_style=0.3, p_unknown=0.2, p_break=0.25, p_sym=0.15, p_image=0.2, style_map=0.5, p_note=0.2, p_comment=0.15, p_textbox=0.1,
@@ -26,7 +27,7 @@ def clean_silent(case, r):
 
 
 def run(out, tier, seed, model_ok):
-    n = 1500 if tier == "quick" else 20000
+    n = common.deepen(1500 if tier == "quick" else 20000)
     cs = A.gen_cases(seed, n, PROFILE, sm=dict(junk=0.25), tag="c16-")
     for i, c in enumerate(cs):
         if i % 4 == 0:
